@@ -3772,6 +3772,9 @@ func (d *cborDecDriverBytes) decTagBigFloatAsFloat(decimal bool) (f float64) {
 	if decimal {
 
 		f = decimalFraction64(mant, exp)
+		if math.IsInf(f, 0) {
+			halt.errorStr("cbor decimal fraction overflows float64")
+		}
 	} else {
 
 		if exp > 1<<20 {
@@ -7837,6 +7840,9 @@ func (d *cborDecDriverIO) decTagBigFloatAsFloat(decimal bool) (f float64) {
 	if decimal {
 
 		f = decimalFraction64(mant, exp)
+		if math.IsInf(f, 0) {
+			halt.errorStr("cbor decimal fraction overflows float64")
+		}
 	} else {
 
 		if exp > 1<<20 {
